@@ -3,6 +3,7 @@ import Ark.Proofs.Rejects
 import Ark.Props.C08
 import Ark.Props.C09World
 import Ark.Props.C09Batch
+import Ark.Props.C08Rel
 
 namespace Ark.Props.C09
 open Ark
@@ -86,5 +87,27 @@ theorem batch_removeEntities_callbacks : type_of% @Ark.Props.C09Batch.removeEnti
 
 /-- exchange batches: all removal callbacks on one world in which nothing has moved, then all moves, then all addition callbacks on one world in which everything has moved -/
 theorem batch_exchangeBatch_callbacks : type_of% @Ark.Props.C09Batch.exchangeBatch_callbacks := @Ark.Props.C09Batch.exchangeBatch_callbacks
+
+
+/-! ### What relation callbacks observe (Props/C08Rel) -/
+
+/-- SetRelations: the OnRemoveRelations callbacks run before the move on a locked world and see the old targets (every entity-level observation — liveness, components, values, targets — is as before the call; the destination table may already have been found, recycled or created); the OnAddRelations callbacks see the new targets -/
+theorem rel_setRelations_sees : type_of% @Ark.Props.C08Rel.setRelations_sees := @Ark.Props.C08Rel.setRelations_sees
+
+/-- NewEntity with targets: callbacks see the created entity with its components, values and targets -/
+theorem rel_newEntity_rel_sees : type_of% @Ark.Props.C08Rel.newEntity_rel_sees := @Ark.Props.C08Rel.newEntity_rel_sees
+
+/-- Add with relation components: callbacks see the world after the change -/
+theorem rel_add_rel_sees : type_of% @Ark.Props.C08Rel.add_rel_sees := @Ark.Props.C08Rel.add_rel_sees
+
+/-- Remove of relation components: both rounds see the world before the change, under one lock -/
+theorem rel_remove_rel_sees : type_of% @Ark.Props.C08Rel.remove_rel_sees := @Ark.Props.C08Rel.remove_rel_sees
+
+/-- RemoveEntity: both rounds see the entity still alive with its components and targets -/
+theorem rel_removeEntity_rel_sees : type_of% @Ark.Props.C08Rel.removeEntity_rel_sees := @Ark.Props.C08Rel.removeEntity_rel_sees
+
+/-- all records of one round are functions of one world -/
+theorem rel_round_log_blind : type_of% @Ark.Props.C08Rel.round_log_blind := @Ark.Props.C08Rel.round_log_blind
+
 
 end Ark.Props.C09
